@@ -24,6 +24,7 @@ ALPHABET = (
 
 
 class C05World(DstWorld):
+    prop = P
     name = "DST-C05"
     default_alphabet = ALPHABET
 
